@@ -186,6 +186,31 @@ pub fn pool(seed: u64) -> Vec<Call> {
     let strat = prop_oneof![4 => enc, 4 => dec, 2 => stream, 1 => graph, 6 => fam, 3 => zip, 1 => big, 2 => dangling, 2 => tz, 2 => dec_text, 2 => held];
     let mut r = runner(tag_seed(derive_seed(seed, "C18-pool", 0, 0), 0));
     let mut calls: Vec<Call> = (0..POOL).map(|_| strat.new_tree(&mut r).expect("pool").current()).collect();
+    // a declaration whose history names a field that is neither written nor listed as removed (made optional, later
+    // turned into a transient field without the FieldMadeTransient step): every encode of it fails, the first one and
+    // each later one (what is checked once per type must not be skipped afterwards)
+    {
+        use vmodel::{Field, Record, Step, Val};
+        let ill = vmodel::declgen::struct_decl(
+            "DynIll",
+            &Record { fields: vec![Field::new("a", Ty::U8), Field { name: "cached".into(), ty: Ty::Option(Arc::new(Ty::U8)), transient: Some(Val::None), opt_spelling: 0 }], steps: vec![Step::MadeOptional { name: "cached".into() }] },
+        );
+        let ill_e = Arc::new(vmodel::Decl {
+            name: "DynIllE".into(),
+            body: vmodel::DeclBody::Enum {
+                sorted: false,
+                steps: vec![],
+                variants: vec![
+                    vmodel::Variant { name: "Ok".into(), shape: vmodel::Shape::Unit, transient: false, record: Record { fields: vec![], steps: vec![] } },
+                    vmodel::Variant { name: "Bad".into(), shape: vmodel::Shape::Struct, transient: false, record: Record { fields: vec![Field::new("x", Ty::U16)], steps: vec![Step::MadeOptional { name: "gone".into() }] } },
+                ],
+            },
+        });
+        for k in 0..4u8 {
+            calls.push(Call::Enc(TV { ty: Ty::Adt(ill.clone()), val: Val::Rec(vec![Val::Int(k as i128), Val::None]), forms: vec![] }));
+            calls.push(Call::Enc(TV { ty: Ty::Adt(ill_e.clone()), val: if k % 2 == 0 { Val::Variant(1, vec![Val::Int(k as i128)]) } else { Val::Variant(0, vec![]) }, forms: vec![] }));
+        }
+    }
     // the hand-written groups completely: every version as reader of every version's bytes
     for names in [vec!["MemoV0", "MemoV1", "MemoV2"], vec!["Twin", "TwinOther"], vec!["TwinE", "TwinEOther"]] {
         let g: Vec<_> = b.specials.iter().filter(|d| names.contains(&d.name.as_str())).cloned().collect();
@@ -272,7 +297,8 @@ pub fn execute(c: &Call) -> String {
         }
         Call::Dec { ty, bytes } => match vcat::decode(ty, bytes) {
             Ok(v) => format!("dec-ok {:016x}", hash_json(&canon(ty, &v))),
-            Err(e) => format!("dec-err {}", e.kind),
+            // (the whole error, not only its kind: a field name or a number in it is part of the result)
+            Err(e) => format!("dec-err {} {}", e.kind, e.detail),
         },
         Call::Stream(items) => {
             let hashy = items.iter().any(|(t, _)| has_hash(t));
@@ -282,7 +308,7 @@ pub fn execute(c: &Call) -> String {
                     let (rs, rest) = vcat::decode_many(&tys, &b);
                     let vals: Vec<String> = rs.iter().enumerate().map(|(i, r)| match r {
                         Ok(v) => format!("{:016x}", hash_json(&canon(&tys[i], v))),
-                        Err(e) => e.kind.clone(),
+                        Err(e) => format!("{} {}", e.kind, e.detail),
                     }).collect();
                     if hashy {
                         format!("stream len={} rest={} vals={vals:?}", b.len(), rest.len())
